@@ -139,4 +139,382 @@ theorem shapeIter_zero_len (shape : List Nat) (h0 : 0 ∈ shape) (k : Nat) :
 
 example : (ShapeIter.new [2, 0, 3]).next.1 = none := by decide
 
+/-- The shape iterator in the vocabulary of the generic layer: it enumerates `shapeItem`. -/
+theorem shapeIter_enumerates (shape : List Nat) :
+    Enumerates shapeNext (ShapeIter.new shape) (prod shape) (shapeItem shape)
+      (fun k => ShapeIter.steps k (ShapeIter.new shape)) :=
+  shape_enumerates shape
+
+/-! ## Matrix iterators
+
+  `collect next n s` runs `n` calls of `next` from `s`, returning the items (`none` = the
+  iterator returned `None`) and the iterator afterwards; `.ok` means no call panicked. -/
+
+/-- Row-major iteration: for every number `n` of calls — also beyond the end — the calls yield
+    `(k / columns, k % columns)` for `k < rows * columns` and `None` afterwards (fused), never
+    panicking; this includes empty (`0×N`, `N×0`) views, which yield nothing. -/
+theorem rowMajor_kth (rows columns n : Nat) :
+    collect rowMajorNext n (MatIter.new rows columns) =
+      .ok ((List.range n).map (rowMajorItem rows columns), rowMajorState rows columns n) := by
+  have := (rowMajor_enumerates rows columns).collect_from n 0
+  rw [(rowMajor_enumerates rows columns).start, Nat.zero_add, ← List.range_eq_range'] at this
+  exact this
+
+example : collect rowMajorNext 5 (MatIter.new 2 2) =
+    .ok ([some (0, 0), some (0, 1), some (1, 0), some (1, 1), none], rowMajorState 2 2 5) := by
+  rfl
+
+/-- After any `n` calls the row-major size hint is `(rows·columns − n, Some(rows·columns − n))`,
+    lower = upper, no underflow and no overflow (for element counts that fit a `usize`). -/
+theorem rowMajor_len (rows columns : Nat) (hfit : rows * columns ≤ usizeMax) (n : Nat)
+    (items : List (Option (Nat × Nat))) (st : MatIter)
+    (h : collect rowMajorNext n (MatIter.new rows columns) = .ok (items, st)) :
+    rowMajorSizeHint st =
+        .ok (remaining (rows * columns) n, some (remaining (rows * columns) n)) ∧
+      lenOfHint (rowMajorSizeHint st) = .ok (remaining (rows * columns) n) := by
+  rw [rowMajor_kth] at h
+  simp only [Outcome.ok.injEq, Prod.mk.injEq] at h
+  rw [← h.2, rowMajorSizeHint_state rows columns n hfit]
+  exact ⟨rfl, by simp [lenOfHint, remaining]⟩
+
+/-- Column-major iteration yields `(k % rows, k / rows)` for `k < rows * columns`, then `None`. -/
+theorem colMajor_kth (rows columns n : Nat) :
+    collect colMajorNext n (MatIter.new rows columns) =
+      .ok ((List.range n).map (colMajorItem rows columns), colMajorState rows columns n) := by
+  have := (colMajor_enumerates rows columns).collect_from n 0
+  rw [(colMajor_enumerates rows columns).start, Nat.zero_add, ← List.range_eq_range'] at this
+  exact this
+
+example : collect colMajorNext 7 (MatIter.new 2 3) =
+    .ok ([some (0, 0), some (1, 0), some (0, 1), some (1, 1), some (0, 2), some (1, 2), none],
+      colMajorState 2 3 7) := by
+  rfl
+
+theorem colMajor_len (rows columns : Nat) (hfit : rows * columns ≤ usizeMax) (n : Nat)
+    (items : List (Option (Nat × Nat))) (st : MatIter)
+    (h : collect colMajorNext n (MatIter.new rows columns) = .ok (items, st)) :
+    colMajorSizeHint st =
+        .ok (remaining (rows * columns) n, some (remaining (rows * columns) n)) ∧
+      lenOfHint (colMajorSizeHint st) = .ok (remaining (rows * columns) n) := by
+  rw [colMajor_kth] at h
+  simp only [Outcome.ok.injEq, Prod.mk.injEq] at h
+  rw [← h.2, colMajorSizeHint_state rows columns n hfit]
+  exact ⟨rfl, by simp [lenOfHint, remaining]⟩
+
+/-- Empty views (`0×N`, `N×0`, `0×0`): both whole-matrix iterators yield nothing at any call,
+    and report length 0 (the `rows - 1` / `columns - 1` of the step functions and the
+    subtractions of the size hints never underflow). -/
+theorem matrix_empty_views (rows columns : Nat) (hempty : rows = 0 ∨ columns = 0) (n : Nat) :
+    collect rowMajorNext n (MatIter.new rows columns) =
+        .ok (List.replicate n none, MatIter.new rows columns) ∧
+      collect colMajorNext n (MatIter.new rows columns) =
+        .ok (List.replicate n none, MatIter.new rows columns) ∧
+      rowMajorSizeHint (MatIter.new rows columns) = .ok (0, some 0) ∧
+      colMajorSizeHint (MatIter.new rows columns) = .ok (0, some 0) := by
+  have h0 : rows * columns = 0 := by rcases hempty with h | h <;> simp [h]
+  have hr : ∀ k, rowMajorItem rows columns k = none := by intro k; simp [rowMajorItem, h0]
+  have hc : ∀ k, colMajorItem rows columns k = none := by intro k; simp [colMajorItem, h0]
+  have hrs : ∀ k, rowMajorState rows columns k = MatIter.new rows columns := by
+    intro k; rw [← rowMajorState_zero]; simp [rowMajorState, h0]
+  have hcs : ∀ k, colMajorState rows columns k = MatIter.new rows columns := by
+    intro k; rw [← colMajorState_zero]; simp [colMajorState, h0]
+  have hl : ∀ (f : Nat → Option (Nat × Nat)), (∀ k, f k = none) →
+      (List.range n).map f = List.replicate n none := by
+    intro f hf
+    apply List.ext_getElem <;> simp [hf]
+  refine ⟨?_, ?_, ?_, ?_⟩
+  · rw [rowMajor_kth, hl _ hr, hrs]
+  · rw [colMajor_kth, hl _ hc, hcs]
+  · have := rowMajorSizeHint_state rows columns 0 (by rw [h0]; simp [usizeMax])
+    rw [hrs, h0] at this; exact this
+  · have := colMajorSizeHint_state rows columns 0 (by rw [h0]; simp [usizeMax])
+    rw [hcs, h0] at this; exact this
+
+example : (0 : Nat) = 0 ∨ (5 : Nat) = 0 := Or.inl rfl
+
+/-- Single row: the constructor accepts exactly the rows of a view with at least one column
+    (`assert!(index_is_valid(row, 0))`, otherwise the documented panic); the iterator then
+    yields `(row, 0), (row, 1), …, (row, columns − 1)`, then `None`, with exact lengths. -/
+theorem row_kth_len (rows columns row n : Nat) :
+    (¬ (row < rows ∧ 0 < columns) → LineIter.newRow rows columns row = .panic .explicit) ∧
+      (row < rows ∧ 0 < columns →
+        ∃ it, LineIter.newRow rows columns row = .ok it ∧
+          collect lineNext n it =
+            .ok ((List.range n).map (rowItem columns row), lineState (.row row) columns n) ∧
+          (lineState (.row row) columns n).sizeHint =
+            (remaining columns n, some (remaining columns n))) := by
+  refine ⟨fun h => by simp [LineIter.newRow, h],
+    fun h => ⟨⟨.row row, ⟨0, columns⟩⟩, by simp [LineIter.newRow, h], ?_, ?_⟩⟩
+  · have := (line_enumerates (.row row) columns).collect_from n 0
+    rw [(line_enumerates (.row row) columns).start, Nat.zero_add, ← List.range_eq_range'] at this
+    rw [this]
+    simp [rowItem, Line.position]
+  · exact lineState_sizeHint _ _ _
+
+/-- Single column: symmetric to `row_kth_len`. -/
+theorem col_kth_len (rows columns column n : Nat) :
+    (¬ (0 < rows ∧ column < columns) → LineIter.newColumn rows columns column = .panic .explicit) ∧
+      (0 < rows ∧ column < columns →
+        ∃ it, LineIter.newColumn rows columns column = .ok it ∧
+          collect lineNext n it =
+            .ok ((List.range n).map (columnItem rows column), lineState (.column column) rows n) ∧
+          (lineState (.column column) rows n).sizeHint =
+            (remaining rows n, some (remaining rows n))) := by
+  refine ⟨fun h => by simp [LineIter.newColumn, h],
+    fun h => ⟨⟨.column column, ⟨0, rows⟩⟩, by simp [LineIter.newColumn, h], ?_, ?_⟩⟩
+  · have := (line_enumerates (.column column) rows).collect_from n 0
+    rw [(line_enumerates (.column column) rows).start, Nat.zero_add, ← List.range_eq_range'] at this
+    rw [this]
+    simp [columnItem, Line.position]
+  · exact lineState_sizeHint _ _ _
+
+/-- Main diagonal: `(0,0), (1,1), …` up to `min rows columns` (so nothing for empty views). -/
+theorem diag_kth_len (rows columns n : Nat) :
+    collect lineNext n (LineIter.newDiagonal rows columns) =
+        .ok ((List.range n).map (diagonalItem rows columns),
+          lineState .diagonal (min rows columns) n) ∧
+      (lineState .diagonal (min rows columns) n).sizeHint =
+        (remaining (min rows columns) n, some (remaining (min rows columns) n)) := by
+  refine ⟨?_, lineState_sizeHint _ _ _⟩
+  have := (line_enumerates .diagonal (min rows columns)).collect_from n 0
+  rw [(line_enumerates .diagonal (min rows columns)).start, Nat.zero_add,
+    ← List.range_eq_range'] at this
+  rw [LineIter.newDiagonal, this]
+  simp [diagonalItem, Line.position]
+
+example : (1 < 2 ∧ 0 < 3) := by decide
+
+/-! ## `WithIndex`: every element is paired with its true index
+
+  First in local form (any state of the iterator, reachable or not): if the with-index
+  iterator returns `(i, x)` then the wrapped iterator fetched `x` from exactly position `i`.
+  The `refNext` flavour makes the fetched cell visible; the copying and owning flavours fetch
+  the same cell (`copyNext`, `ownedNext` in Model/Iter.lean). -/
+
+theorem withIndex_pairs_true_index {κ : Type} (cell : List Nat → Option κ) (it it' : ShapeIter)
+    (i : List Nat) (x : Option κ)
+    (h : withIndexNext (fun s => s.indexes) (refNext shapeNext cell) it = .ok (some (i, x), it')) :
+    shapeNext it = .ok (some i, it') ∧ x = cell i := by
+  simp only [withIndexNext, refNext] at h
+  cases hn : shapeNext it with
+  | panic k => simp [hn] at h
+  | ok r =>
+    obtain ⟨p, s'⟩ := r
+    cases p with
+    | none => simp [hn] at h
+    | some p =>
+      have hc := shapeNext_counter it s' p hn
+      simp only [hn, Option.map_some, Outcome.ok.injEq, Prod.mk.injEq, Option.some.injEq] at h
+      obtain ⟨⟨h1, h2⟩, h3⟩ := h
+      subst h3
+      rw [hc] at h1
+      subst h1
+      exact ⟨rfl, h2.symm⟩
+
+theorem withIndex_pairs_true_index_rowMajor {κ : Type} (cell : Nat × Nat → Option κ)
+    (it it' : MatIter) (i : Nat × Nat) (x : Option κ)
+    (h : withIndexNext (fun s => (s.rowCounter, s.columnCounter)) (refNext rowMajorNext cell) it =
+      .ok (some (i, x), it')) :
+    rowMajorNext it = .ok (some i, it') ∧ x = cell i := by
+  simp only [withIndexNext, refNext] at h
+  cases hn : rowMajorNext it with
+  | panic k => simp [hn] at h
+  | ok r =>
+    obtain ⟨p, s'⟩ := r
+    cases p with
+    | none => simp [hn] at h
+    | some p =>
+      have hc := rowMajorNext_counter it s' p hn
+      simp only [hn, Option.map_some, Outcome.ok.injEq, Prod.mk.injEq, Option.some.injEq] at h
+      obtain ⟨⟨h1, h2⟩, h3⟩ := h
+      subst h3
+      rw [hc] at h1
+      subst h1
+      exact ⟨rfl, h2.symm⟩
+
+theorem withIndex_pairs_true_index_colMajor {κ : Type} (cell : Nat × Nat → Option κ)
+    (it it' : MatIter) (i : Nat × Nat) (x : Option κ)
+    (h : withIndexNext (fun s => (s.rowCounter, s.columnCounter)) (refNext colMajorNext cell) it =
+      .ok (some (i, x), it')) :
+    colMajorNext it = .ok (some i, it') ∧ x = cell i := by
+  simp only [withIndexNext, refNext] at h
+  cases hn : colMajorNext it with
+  | panic k => simp [hn] at h
+  | ok r =>
+    obtain ⟨p, s'⟩ := r
+    cases p with
+    | none => simp [hn] at h
+    | some p =>
+      have hc := colMajorNext_counter it s' p hn
+      simp only [hn, Option.map_some, Outcome.ok.injEq, Prod.mk.injEq, Option.some.injEq] at h
+      obtain ⟨⟨h1, h2⟩, h3⟩ := h
+      subst h3
+      rw [hc] at h1
+      subst h1
+      exact ⟨rfl, h2.symm⟩
+
+/-- … and globally: the with-index iterators yield, call by call, the documented position
+    paired with the cell of that position — for tensors over any source … -/
+theorem withIndex_kth {κ : Type} (shape : List Nat) (cell : List Nat → Option κ) (n : Nat) :
+    collect (withIndexNext (fun s => s.indexes) (refNext shapeNext cell)) n (ShapeIter.new shape) =
+      .ok ((List.range n).map (fun k => (shapeItem shape k).map fun p => (p, cell p)),
+        ShapeIter.steps n (ShapeIter.new shape)) := by
+  have E := (shape_enumerates shape).withIndex_ref (fun s => s.indexes)
+    (fun s s' p h => shapeNext_counter s s' p h) cell
+  have := E.collect_from n 0
+  rw [Nat.zero_add, ← List.range_eq_range'] at this
+  exact this
+
+/-- … and for both whole-matrix orders over any source. -/
+theorem withIndex_kth_matrix {κ : Type} (rows columns : Nat) (cell : Nat × Nat → Option κ)
+    (n : Nat) :
+    collect (withIndexNext (fun s => (s.rowCounter, s.columnCounter)) (refNext rowMajorNext cell)) n
+        (MatIter.new rows columns) =
+      .ok ((List.range n).map (fun k => (rowMajorItem rows columns k).map fun p => (p, cell p)),
+        rowMajorState rows columns n) ∧
+    collect (withIndexNext (fun s => (s.rowCounter, s.columnCounter)) (refNext colMajorNext cell)) n
+        (MatIter.new rows columns) =
+      .ok ((List.range n).map (fun k => (colMajorItem rows columns k).map fun p => (p, cell p)),
+        colMajorState rows columns n) := by
+  constructor
+  · have E := (rowMajor_enumerates rows columns).withIndex_ref
+      (fun s => (s.rowCounter, s.columnCounter)) (fun s s' p h => rowMajorNext_counter s s' p h) cell
+    have := E.collect_from n 0
+    rw [(rowMajor_enumerates rows columns).start, Nat.zero_add, ← List.range_eq_range'] at this
+    exact this
+  · have E := (colMajor_enumerates rows columns).withIndex_ref
+      (fun s => (s.rowCounter, s.columnCounter)) (fun s s' p h => colMajorNext_counter s s' p h) cell
+    have := E.collect_from n 0
+    rw [(colMajor_enumerates rows columns).start, Nat.zero_add, ← List.range_eq_range'] at this
+    exact this
+
+/-! ## Mutable iterators never hand out the same element twice; owning iterators move every
+    value out once
+
+  Stated for *any* enumerating position iterator (`Enumerates`) over *any* source that is
+  `Faithful` (resolves the `k`-th position to a cell `cellOf k`, different calls to different
+  cells).  Instances for `Tensor` and `Matrix` follow; a view model plugs in by proving
+  `Faithful` from the injectivity of its index map (`faithful_of_injective`). -/
+
+/-- The reference iterators (shared and mutable) hand out, call by call, the cells
+    `cellOf 0, cellOf 1, …` — for every number of calls `n`, `None` after the end — and these
+    cells are pairwise different: no two `&mut` alias. -/
+theorem mut_items_distinct {σ π κ : Type} {next : σ → Outcome (Option π × σ)} {s0 : σ}
+    {total : Nat} {item : Nat → Option π} {state : Nat → σ}
+    (E : Enumerates next s0 total item state) {cell : π → Option κ} {cellOf : Nat → κ}
+    (F : Faithful item total cell cellOf) (n : Nat) :
+    collect (refNext next cell) n s0 =
+        .ok ((List.range n).map (fun k => if k < total then some (some (cellOf k)) else none),
+          state n) ∧
+      ((List.range (min n total)).map cellOf).Nodup := by
+  constructor
+  · have := (E.ref cell).collect_from n 0
+    rw [E.start, Nat.zero_add, ← List.range_eq_range'] at this
+    rw [this]
+    congr 2
+    apply List.map_congr_left
+    intro k _
+    by_cases hk : k < total
+    · obtain ⟨p, hp, hc⟩ := F.resolves k hk
+      simp [hk, hp, hc]
+    · simp [hk, E.item_none k (by omega)]
+  · rw [List.nodup_iff_pairwise_ne, List.pairwise_map]
+    refine List.Pairwise.imp_of_mem ?_ (List.pairwise_lt_range (n := min n total))
+    intro a b ha hb hab heq
+    have ha' := List.mem_range.mp ha
+    have hb' := List.mem_range.mp hb
+    have := F.distinct a b (by omega) (by omega) heq
+    omega
+
+/-- Owning iterators: for every number of calls `n`, the values returned are the *original*
+    contents `mem0 (cellOf k)` in iteration order (never a placeholder, never a value twice:
+    the cells are pairwise different), and afterwards exactly the visited cells hold the
+    placeholder while all other cells are untouched. -/
+theorem owned_moves_once {σ π κ α : Type} [DecidableEq κ] {next : σ → Outcome (Option π × σ)}
+    {s0 : σ} {total : Nat} {item : Nat → Option π} {state : Nat → σ}
+    (E : Enumerates next s0 total item state) {cell : π → Option κ} {cellOf : Nat → κ}
+    (F : Faithful item total cell cellOf) (mem0 : κ → α) (placeholder : α) (n : Nat) :
+    collect (ownedNext next cell placeholder) n (s0, mem0) =
+      .ok ((List.range n).map (fun k => if k < total then some (some (mem0 (cellOf k))) else none),
+        (state n, fun c => if c ∈ (List.range (min n total)).map cellOf then placeholder
+          else mem0 c)) := by
+  have := owned_collect_from E cell cellOf F.resolves F.distinct mem0 placeholder n 0
+  have hm : visitedMem mem0 placeholder ((List.range (min 0 total)).map cellOf) = mem0 := by
+    funext c; simp [visitedMem]
+  rw [hm, E.start, Nat.zero_add, ← List.range_eq_range'] at this
+  exact this
+
+/-- A source is faithful for an iteration as soon as every visited position is valid, the
+    source resolves valid positions, and it maps different valid positions to different cells
+    (for views: `view_get_injective`, C02). -/
+theorem faithful_of_injective {π κ : Type} [Inhabited κ] {total : Nat} {item : Nat → Option π}
+    (cell : π → Option κ) (valid : π → Prop)
+    (hitem_valid : ∀ k, k < total → ∃ p, item k = some p ∧ valid p)
+    (hitem_inj : ∀ j k p, item j = some p → item k = some p → j = k)
+    (hresolves : ∀ p, valid p → ∃ c, cell p = some c)
+    (hsrc : ∀ p q c, valid p → valid q → cell p = some c → cell q = some c → p = q) :
+    Faithful item total cell (fun k => ((item k).bind cell).getD default) where
+  resolves k hk := by
+    obtain ⟨p, hp, vp⟩ := hitem_valid k hk
+    obtain ⟨c, hc⟩ := hresolves p vp
+    exact ⟨p, hp, by simp [hp, hc]⟩
+  distinct := by
+    apply cellOf_injective cell valid
+    · intro k hk
+      obtain ⟨p, hp, vp⟩ := hitem_valid k hk
+      obtain ⟨c, hc⟩ := hresolves p vp
+      exact ⟨p, hp, vp, by simp [hp, hc]⟩
+    · intro j k p _ _ hj hk
+      exact hitem_inj j k p hj hk
+    · exact hsrc
+
+/-- `Tensor`: iteration resolves call `k` to storage offset `k` (one step in memory per call). -/
+theorem tensor_faithful {ν α : Type} [DecidableEq ν] (shape : Shape ν) (data : List α)
+    (t : Tensor ν α) (ht : Tensor.tryFrom shape data = some t) :
+    (TSource.ofTensor t).shape = shape.map (·.2) ∧
+      Faithful (shapeItem (shape.map (·.2))) (prod (shape.map (·.2))) (TSource.ofTensor t).cell
+        (fun k => k) := by
+  refine ⟨(ofTensor_cell shape data t ht _ (unravel_inBounds _ 0 ?_)).2, ?_, ?_⟩
+  · -- a tensor has at least one element
+    exact prod_pos_of_all_pos _ (tryFrom_lengths_pos shape data t ht)
+  · intro k hk
+    refine ⟨unravel (shape.map (·.2)) k, by simp [shapeItem, hk], ?_⟩
+    rw [(ofTensor_cell shape data t ht _ (unravel_inBounds _ k hk)).1, ravel_unravel _ k hk]
+  · intro j k _ _ h; exact h
+
+example : ∃ t, Tensor.tryFrom [("a", 2), ("b", 3)] (List.range 6) = some t := ⟨_, rfl⟩
+
+/-- `Matrix`, row-major: call `k` resolves to offset `k`; column-major: to
+    `k / rows + (k % rows) * columns`; both without repetition. -/
+theorem matrix_faithful (rows columns : Nat) :
+    Faithful (rowMajorItem rows columns) (rows * columns) (MSource.ofMatrix rows columns).cell
+        (fun k => k) ∧
+      Faithful (colMajorItem rows columns) (rows * columns) (MSource.ofMatrix rows columns).cell
+        (fun k => k / rows + (k % rows) * columns) := by
+  constructor
+  · refine ⟨?_, fun j k _ _ h => h⟩
+    intro k hk
+    have hv := rowMajorItem_valid rows columns k (k / columns, k % columns)
+      (by simp [rowMajorItem, hk])
+    refine ⟨(k / columns, k % columns), by simp [rowMajorItem, hk], ?_⟩
+    rw [ofMatrix_cell _ _ _ hv]
+    simp only [Option.some.injEq]
+    have := Nat.div_add_mod k columns
+    rw [Nat.mul_comm] at this
+    omega
+  · have hres : ∀ k, k < rows * columns → ∃ p, colMajorItem rows columns k = some p ∧
+        (p.1 < rows ∧ p.2 < columns) ∧
+        (MSource.ofMatrix rows columns).cell p = some (k / rows + (k % rows) * columns) := by
+      intro k hk
+      have hv := colMajorItem_valid rows columns k (k % rows, k / rows)
+        (by simp [colMajorItem, hk])
+      exact ⟨(k % rows, k / rows), by simp [colMajorItem, hk], hv, ofMatrix_cell _ _ _ hv⟩
+    refine ⟨fun k hk => ?_, ?_⟩
+    · obtain ⟨p, hp, _, hc⟩ := hres k hk
+      exact ⟨p, hp, hc⟩
+    · exact cellOf_injective (MSource.ofMatrix rows columns).cell
+        (fun p => p.1 < rows ∧ p.2 < columns) _ hres
+        (fun j k p _ _ hj hk => colMajorItem_injective rows columns j k p hj hk)
+        (fun p q c vp vq => ofMatrix_injective rows columns p q c vp vq)
+
 end EasyMl.C09
